@@ -26,12 +26,16 @@
 (* then store, a plausible wrong refactoring), RefreshExpected (a failed    *)
 (* push compare-exchange refreshes next_ with the head it found; FALSE =   *)
 (* the link keeps the value read before the loop, the retry publishes a    *)
-(* node whose next_ is stale).  The atomic steps are exactly the events    *)
+(* node whose next_ is stale), ReleaseLast (clear() empties the stack and   *)
+(* THEN marks it free; FALSE = the flag is cleared first and the thread    *)
+(* goes on working on the stack - shrink_to_fit() - while another thread   *)
+(* can already take it: actions ShrinkDone / ExitDone end that work).      *)
+(* The atomic steps are exactly the events                                 *)
 (* the trace specification spec/contract/TempListTrace.tla validates       *)
 (* against recorded executions of the real code.                           *)
 (***************************************************************************)
 EXTENDS Naturals, Sequences, FiniteSets, TLC
-CONSTANTS Threads, Main, MaxNodes, MaxOps, FixUninit, FixDetector, FixNifty, AtomicAdopt, RefreshExpected
+CONSTANTS Threads, Main, MaxNodes, MaxOps, FixUninit, FixDetector, FixNifty, AtomicAdopt, RefreshExpected, ReleaseLast
 NULL == 0
 Nodes == 1..MaxNodes
 VARIABLES first, next, inuse, created, destroyed,    \* the global list
@@ -87,13 +91,22 @@ PushCas(t) == /\ pc[t] = "push"
 InitDtor(t) == /\ alive[t] /\ pc[t] = "idle" /\ ts[t] # NULL /\ ops[t] < MaxOps /\ ~destroyed
                /\ ops' = [ops EXCEPT ![t] = @ + 1]
                /\ inuse' = [inuse EXCEPT ![ts[t]] = FALSE]
-               /\ ts' = IF FixUninit THEN [ts EXCEPT ![t] = NULL] ELSE ts
-               /\ UNCHANGED <<first, next, created, destroyed, det, pc, cur, alive, sawfree, nx, lnk>>
+               \* with ReleaseLast the stack was emptied before this store: nothing of this thread touches it afterwards
+               /\ IF ReleaseLast THEN ts' = (IF FixUninit THEN [ts EXCEPT ![t] = NULL] ELSE ts) /\ UNCHANGED pc
+                  ELSE pc' = [pc EXCEPT ![t] = "shrinking"] /\ UNCHANGED ts
+               /\ UNCHANGED <<first, next, created, destroyed, det, cur, alive, sawfree, nx, lnk>>
+\* (only when ReleaseLast = FALSE) the thread finishes emptying the stack it has already marked free
+ShrinkDone(t) == /\ pc[t] = "shrinking"
+                 /\ pc' = [pc EXCEPT ![t] = "idle"] /\ ts' = IF FixUninit THEN [ts EXCEPT ![t] = NULL] ELSE ts
+                 /\ UNCHANGED <<first, next, inuse, created, destroyed, det, cur, alive, ops, sawfree, nx, lnk>>
 
 Exit(t) == /\ alive[t] /\ pc[t] = "idle" /\ t # Main
-           /\ alive' = [alive EXCEPT ![t] = FALSE]
            /\ IF det[t] /\ ts[t] # NULL THEN inuse' = [inuse EXCEPT ![ts[t]] = FALSE] ELSE UNCHANGED inuse
-           /\ UNCHANGED <<first, next, created, destroyed, ts, det, pc, cur, ops, sawfree, nx, lnk>>
+           /\ IF ReleaseLast \/ ~(det[t] /\ ts[t] # NULL) THEN alive' = [alive EXCEPT ![t] = FALSE] /\ UNCHANGED pc
+              ELSE pc' = [pc EXCEPT ![t] = "exitshrinking"] /\ UNCHANGED alive
+           /\ UNCHANGED <<first, next, created, destroyed, ts, det, cur, ops, sawfree, nx, lnk>>
+ExitDone(t) == /\ pc[t] = "exitshrinking" /\ alive' = [alive EXCEPT ![t] = FALSE] /\ pc' = [pc EXCEPT ![t] = "idle"]
+               /\ UNCHANGED <<first, next, inuse, created, destroyed, ts, det, cur, ops, sawfree, nx, lnk>>
 
 \* the main thread runs the static destructors after all other threads have ended
 ProgramExit == /\ ~destroyed /\ \A t \in Threads \ {Main} : ~alive[t]
@@ -102,7 +115,7 @@ ProgramExit == /\ ~destroyed /\ \A t \in Threads \ {Main} : ~alive[t]
                /\ alive' = [alive EXCEPT ![Main] = FALSE]
                /\ UNCHANGED <<first, next, inuse, created, ts, det, pc, cur, ops, sawfree, nx, lnk>>
 
-Next == (\E t \in Threads : Get(t) \/ Find(t) \/ Store(t) \/ NewLoad(t) \/ PushCas(t) \/ InitDtor(t) \/ Exit(t)) \/ ProgramExit
+Next == (\E t \in Threads : Get(t) \/ Find(t) \/ Store(t) \/ NewLoad(t) \/ PushCas(t) \/ InitDtor(t) \/ Exit(t) \/ ShrinkDone(t) \/ ExitDone(t)) \/ ProgramExit
 Spec == Init /\ [][Next]_vars
 
 \* C14: no two live threads use the same stack
